@@ -62,6 +62,38 @@ def check_rule_structure(ctx, name, data):
     ctx.distinct(("rule", name))
 
 
+def check_table_text(ctx):
+    """The table file itself: an object with a repeated key is malformed (json.loads silently keeps the last one, so a rule or an
+    attribute declaration can vanish without a trace in the loaded table)."""
+    import importlib.resources
+    import json
+    try:
+        text = importlib.resources.read_text("metapype.eml", "rules.json")
+    except Exception as e:
+        ctx.inconclusive_because(f"cannot read rules.json as the library does: {e!r}")
+        return
+    dups = []
+
+    def hook(pairs):
+        seen = set()
+        for k, _ in pairs:
+            if k in seen:
+                dups.append(k)
+            seen.add(k)
+        return dict(pairs)
+
+    loaded = json.loads(text, object_pairs_hook=hook)
+    ctx.evaluated()
+    ctx.count("table_text_checked")
+    for k in dups:
+        owner = next((r for r, d in loaded.items() if isinstance(d, list) and d and isinstance(d[0], dict) and k in d[0]), None)
+        ctx.violation(f"duplicate-key-in-rules.json:{k}", f"rules.json declares the key {k!r} twice in one object"
+                                                         f"{' (attributes of ' + owner + ')' if owner else ''}; the earlier declaration is silently dropped",
+                      {"table_text": True})
+    if loaded != emlkit.rules_table():
+        ctx.violation("loaded-table-differs-from-rules.json", "rule.rules_dict is not what rules.json parses to", {"table_text": True})
+
+
 def exercise_content_rules(ctx, name):
     """Live: a node governed by the rule, validated in both modes, must never hit the unknown-content-rule branch."""
     try:
@@ -197,6 +229,7 @@ def run(ctx, params):
     elements = mrule.node_names()
     reachable = []
     if part == 0:
+        check_table_text(ctx)
         for name, data in table.items():
             check_rule_structure(ctx, name, data)
             exercise_content_rules(ctx, name)
@@ -247,6 +280,8 @@ def replay(ctx, witness):
     if "tree" in witness:
         t = snapshot.from_plain(emlkit.Node, witness["tree"])
         judge_tree(ctx, t, "recorded tree", witness, "replayed", f"no-valid-tree:{witness.get('element')}")
+    elif witness.get("table_text"):
+        check_table_text(ctx)
     elif "child" in witness:
         if witness["child"] not in set(mrule.node_names()) and witness["child"] in emlkit.spec_of(witness["rule"]).names:
             ctx.violation(f"unknown-child:{witness['child']}@{witness['rule']}", "still an unknown child", witness)
